@@ -703,6 +703,36 @@ func (x *Unit) proot(r T) T {
 	return App(SInt, "proot", r)
 }
 
+// guardAddr is the address of the guarding mutex/once field of the object at ref; the field may sit in an
+// embedded struct ("StartSync.startOnce").
+func (x *Unit) guardAddr(stt *types.Struct, name, path string, ref T) T {
+	addr := ref
+	segs := strings.Split(path, ".")
+	for i, seg := range segs {
+		addr = x.fieldAddr(name+"."+seg, addr)
+		if i == len(segs)-1 {
+			break
+		}
+		var ft types.Type
+		for j := 0; j < stt.NumFields(); j++ {
+			if stt.Field(j).Name() == seg {
+				ft = stt.Field(j).Type()
+			}
+		}
+		if ft == nil {
+			x.unsupportedf(nil, "guarded_by: no field %s in %s", seg, name)
+			return addr
+		}
+		nst, nname, _ := structOfType(types.NewPointer(ft))
+		if nst == nil {
+			x.unsupportedf(nil, "guarded_by: %s.%s is not a struct", name, seg)
+			return addr
+		}
+		stt, name = nst, nname
+	}
+	return addr
+}
+
 func structKey(t types.Type) string {
 	return "struct:" + mangle(types.TypeString(types.Unalias(t), nil))
 }
@@ -730,8 +760,10 @@ func (x *Unit) walkFields(st *State, cur *LV, t types.Type, path []int) *LV {
 			if mu, guarded := x.eng.guards[name+"."+f.Name()]; guarded && x.inSpec == 0 && x.entry != nil {
 				// guarded_by: the object's mutex is held, unless the object was created by this very call
 				g := x.ghostGet(st, "lockHeld")
-				held := Select(x.u.MapVal(g.T), x.fieldAddr(name+"."+mu, ref))
-				x.oblige(st, "guarded", f.Name()+" needs "+mu, Or(Not(Eq(held, IntLit(0))), Cmp(">", x.proot(ref), x.entry.alloc)), nil)
+				ga := x.guardAddr(stt, name, mu, ref)
+				held := Select(x.u.MapVal(g.T), ga)
+				synced := Select(x.u.MapVal(x.ghostGet(st, "syncedWith").T), ga)
+				x.oblige(st, "guarded", f.Name()+" needs "+mu, Or(Not(Eq(held, IntLit(0))), synced, Cmp(">", x.proot(ref), x.entry.alloc)), nil)
 			}
 			if isFlatStruct(f.Type()) {
 				cur = &LV{kind: lvHeap, key: structKey(f.Type()), ref: x.fieldAddr(name+"."+f.Name(), ref), srt: x.u.SortOf(f.Type()), typ: f.Type()}
